@@ -272,6 +272,8 @@ func verifH_C19_atomic() {
 	}
 	otherVal := verifRecord([]byte{9}, 5)
 	fs.files = append(fs.files, verifFSFile{name: "d/00007", content: append([]byte{}, otherVal...)})
+	// files in the directory that are not the store's: List must not turn them into keys
+	fs.files = append(fs.files, verifFSFile{name: "d/2a", content: []byte{1}}, verifFSFile{name: "d/zzzzz", content: []byte{2}}, verifFSFile{name: "d/0002a7", content: []byte{3}})
 	// a leftover spool file of an earlier interrupted Save may exist
 	switch verifChoose("leftover", 3) {
 	case 1:
@@ -448,7 +450,7 @@ func verifH_C19_concurrent() {
 		verifAssert(k == k1 || k == k2, "C19: List reports a key that was never saved (spool file left behind?)")
 	}
 	for _, f := range fs.files {
-		verifAssert(len(f.name) == 7, "C19: a spool file is left behind after the operations returned")
+		verifAssert(len(f.name) <= 7 || f.name[len(f.name)-6:] != ".spool", "C19: a spool file is left behind after the operations returned")
 	}
 	verifReach("end")
 }
